@@ -18,6 +18,9 @@ from hidc.codegen.generator import CodeGen, StackPoint  # noqa: E402
 from hidc.lexer import SourceCode                       # noqa: E402
 from hidc.parser import parse                           # noqa: E402
 from .symint import SymInt, Session                     # noqa: E402
+from hidc.lexer import Span, Cursor                     # noqa: E402
+
+SPAN = Span(Cursor(0, 0), Cursor(0, 1))     # abstract nodes carry a real span: Metadata comments and error paths format it
 
 
 class AExpr(ast.Expression):
@@ -25,7 +28,7 @@ class AExpr(ast.Expression):
     def __init__(self, name, type, shape='REG'):
         self.name = name; self._type = type; self.shape = shape
     type = property(lambda s: s._type)
-    span = None
+    span = SPAN
     def evaluate(self, env): return self
     def __repr__(self): return f'<AExpr {self.name}:{self._type}>'
     def __eq__(self, o): return self is o
@@ -36,7 +39,7 @@ class ABlock(ast.Block):
     """opaque block child: contract of gen_block (DESIGN Appendix B)"""
     def __init__(self, name, modes=ExitMode.NONE, preemptive=False, may_continue=False):
         self.name = name; self._modes = modes; self._pre = preemptive; self.may_continue = may_continue
-    span = None
+    span = SPAN
     preemptive = property(lambda s: s._pre)
     def exit_modes(self): return self._modes
     def evaluate(self, env): return self
@@ -63,6 +66,7 @@ class ChildInfo:
     stack: StackPoint    # compile-time stack at the moment the child is invoked
     effective_defeat: object
     n_arrays: int = 0
+    loop: tuple | None = None     # innermost loop: (break label, continue label, ap at its restore point | None, loop_defeat value | None)
 
 
 class VCodeGen(CodeGen):
@@ -87,8 +91,11 @@ class VCodeGen(CodeGen):
 
     def gen_block(self, block):
         if isinstance(block, ABlock):
+            li = self.loop_info[-1] if self.loop_info else None
             info = self._register(kind='block', node=block, r_out=None, keep=False, stack=self.stack,
-                                  effective_defeat=self.effective_defeat, n_arrays=len(self.allocated_arrays))
+                                  effective_defeat=self.effective_defeat, n_arrays=len(self.allocated_arrays),
+                                  loop=(li.break_label.label_name, li.continue_label.label_name,
+                                        getattr(self, 'v_loop_ap', None), getattr(self, 'v_loop_defeat', None)) if li else None)
             yield Opaque(info.ident)
             return
         yield from super().gen_block(block)
